@@ -16,6 +16,7 @@ import (
 	"strings"
 	"sync"
 	"sync/atomic"
+	"syscall"
 	"time"
 
 	"filippo.io/age"
@@ -345,6 +346,14 @@ func execute(ks *kits, ageBin string, c *cmdT, root string, limitBytes int) (*ou
 	case "same_keyfile":
 		o.outPath = keyFile
 		args = append(args, "-o", spell(keyFile))
+	case "devnull":
+		args = append(args, "-o", "/dev/null")
+	case "fifo":
+		o.outPath = filepath.Join(dir, "out.fifo")
+		if err := syscall.Mkfifo(o.outPath, 0o600); err != nil {
+			vk.Infra("mkfifo: %v", err)
+		}
+		args = append(args, "-o", "out.fifo")
 	case "devfull_o":
 		args = append(args, "-o", "/dev/full")
 	case "devfull_stdout":
@@ -359,7 +368,27 @@ func execute(ks *kits, ageBin string, c *cmdT, root string, limitBytes int) (*ou
 		args = append(args, inName)
 	}
 	var pre []byte
-	if o.outPath != "" {
+	var fifoDone chan []byte
+	if c.Out == "fifo" {
+		// somebody reads the FIFO; whatever arrives until the writer closes is the output
+		fifoDone = make(chan []byte, 1)
+		path := o.outPath
+		late := id%2 == 0
+		go func() {
+			if late {
+				// the reader attaches late: a writer that does not wait for it loses what it writes
+				time.Sleep(250 * time.Millisecond)
+			}
+			f, err := os.OpenFile(path, os.O_RDONLY, 0)
+			if err != nil {
+				fifoDone <- nil
+				return
+			}
+			b, _ := io.ReadAll(f)
+			f.Close()
+			fifoDone <- b
+		}()
+	} else if o.outPath != "" {
 		pre, _ = os.ReadFile(o.outPath)
 	}
 	bin := ageBin
@@ -387,7 +416,26 @@ func execute(ks *kits, ageBin string, c *cmdT, root string, limitBytes int) (*ou
 		stdoutFile.Close()
 	}
 	o.exit, o.stdout, o.stderr, o.timedOut = p.Exit, p.Stdout, string(p.Stderr), p.TimedOut
-	if o.outPath != "" {
+	if fifoDone != nil {
+		// if the command never opened the FIFO the reader is still waiting for a writer (or has not even arrived yet):
+		// be one, briefly, until the reader has seen end-of-file
+		deadline := time.Now().Add(15 * time.Second)
+	waitReader:
+		for {
+			if w, err := os.OpenFile(o.outPath, os.O_WRONLY|syscall.O_NONBLOCK, 0); err == nil {
+				w.Close()
+			}
+			select {
+			case b := <-fifoDone:
+				o.outBytes, o.outExist = b, true
+				break waitReader
+			case <-time.After(20 * time.Millisecond):
+				if time.Now().After(deadline) {
+					vk.Infra("FIFO reader did not finish")
+				}
+			}
+		}
+	} else if o.outPath != "" {
 		b, err := os.ReadFile(o.outPath)
 		o.outExist = err == nil
 		o.outBytes = b
@@ -426,6 +474,8 @@ func delivered(ks *kits, c *cmdT, o *outcome, want []byte, fullLen int) bool {
 	case "devfull_o", "devfull_stdout":
 		// a full device takes nothing; only an empty result is "delivered" to it
 		return c.Op == "dec" && len(want) == 0
+	case "devnull":
+		return true // it takes everything and shows nothing: the result reached it whenever there was one
 	case "same_input", "same_keyfile":
 		return false
 	default:
@@ -464,7 +514,12 @@ func judge(run *vk.Run, ks *kits, cs *ccase, o *outcome, want, pre []byte, fullL
 	}
 	headerRefusal := c.Op == "dec" && (c.Damage == "hdrbit" || c.Damage == "mac" || c.Damage == "wrongkey" || c.Damage == "garbage")
 	if (headerRefusal || c.Flagerr != "none" || c.Input == "missing") && o.outPath != "" && c.Out != "limit" {
-		if pre == nil && o.outExist {
+		if c.Out == "fifo" {
+			if len(o.outBytes) > 0 {
+				run.Violation("C15:output-created-on-refusal:"+statusSig(c), s+": decryption was refused at the header (or the command line was invalid) yet bytes were written to the -o FIFO", rp)
+				return
+			}
+		} else if pre == nil && o.outExist {
 			run.Violation("C15:output-created-on-refusal:"+statusSig(c), s+": decryption was refused at the header (or the command line was invalid) yet the -o file was created", rp)
 			return
 		}
@@ -497,8 +552,8 @@ func statusSig(c *cmdT) string {
 // Run is the C15 check.
 func Run(tier string) {
 	run := vk.NewRun("C15", tier, "model_checking")
-	run.Rule("TLC (Cli.tla) runs the phases of main() (flags, same-file check, open input, keys, header, lazy open, copy, close) for every command in the enumerated space: {encrypt with -r/-R/-e -i/-p, decrypt with -i/passphrase} x {x25519, ssh-ed25519, ssh-rsa, scrypt} x armor x input {file, pipe, missing} x size {0, 5, 131073} x damage {none, header bit, MAC, first/last payload chunk, truncation, wrong key, garbage} x output {stdout, -o new/existing/missing directory/under a regular file, -o naming the input or a key file under 5 spellings, /dev/full as -o and as stdout, size-limited at 5 positions} plus invalid flag combinations; it checks ExitZeroIffDelivered / HeaderRefusalLeavesOutputAlone / SameFileRefused on the machine and emits the expected exit class and output state; a covering stripe (all commands in thorough) is executed with the real binaries built from /repo (prlimit for size limits, script(1) for a controlling terminal), and exit status, output file state and content are judged; size limits at every byte offset for small outputs; age-keygen over {stdout, -o new, -o existing, -y file/stdin, bad input, extra arguments} x output faults. Distinct = command signature.")
-	run.Assume("symlink/hard-link aliases, TTY output refusal and Windows paths are not generated; passphrase encryption runs are few (work factor 18 costs ~1 s each)")
+	run.Rule("TLC (Cli.tla) runs the phases of main() (flags, same-file check, open input, keys, header, lazy open, copy, close) for every command in the enumerated space: {encrypt with -r/-R/-e -i/-p, decrypt with -i/passphrase} x {x25519, ssh-ed25519, ssh-rsa, scrypt} x armor x input {file, pipe, missing} x size {0, 5, 131073} x damage {none, header bit, MAC, first/last payload chunk, truncation, wrong key, garbage} x output {stdout, -o new/existing/missing directory/under a regular file, -o naming the input or a key file under 5 spellings, /dev/full as -o and as stdout, /dev/null, a FIFO with a reader, size-limited at 5 positions} plus invalid flag combinations; it checks ExitZeroIffDelivered / HeaderRefusalLeavesOutputAlone / SameFileRefused on the machine and emits the expected exit class and output state; a covering stripe (all commands in thorough) is executed with the real binaries built from /repo (prlimit for size limits, script(1) for a controlling terminal), and exit status, output file state and content are judged; size limits at every byte offset for small outputs; age-keygen over {stdout, -o new, -o existing, -y file/stdin, bad input, extra arguments} x output faults. Distinct = command signature.")
+	run.Assume("symlink/hard-link aliases of the age -o file (age-keygen: covered), TTY output refusal and Windows paths are not generated; passphrase encryption runs are few (work factor 18 costs ~1 s each)")
 	bin := vk.BuildCLI()
 	ageBin := filepath.Join(bin, "age")
 	root, err := os.MkdirTemp("", "c15-")
@@ -527,7 +582,8 @@ func Run(tier string) {
 			continue // an empty result for a full device: whether that is "delivered" is not decided by the property
 		}
 		interesting := c.Cmd.Flagerr != "none" || c.Cmd.Input == "missing" || (c.Cmd.Size == 0 && c.Cmd.Out != "stdout" && c.Cmd.Out != "new")
-		if !run.Thorough() && !interesting && (i+int(run.Seed))%7 != 0 {
+		nonRegular := (c.Cmd.Out == "devnull" || c.Cmd.Out == "fifo") && c.Cmd.Key != "scrypt" && (i+int(run.Seed))%3 == 0
+		if !run.Thorough() && !interesting && !nonRegular && (i+int(run.Seed))%7 != 0 {
 			continue
 		}
 		if c.Cmd.Key == "scrypt" && c.Cmd.Op == "enc" {
@@ -660,6 +716,33 @@ func keygen(run *vk.Run, kg, root string) {
 		run.Violation("C15:keygen-overwrites", fmt.Sprintf("age-keygen -o <existing file>: exit %d, file changed: %v", p.Exit, !bytes.Equal(b, b2)), nil)
 	}
 	run.Distinct("keygen:-o existing")
+	// -o names an existing file under other spellings and through links: never overwritten, never re-moded
+	victim := filepath.Join(dir, "victim.key")
+	orig := []byte("# an existing key file\nAGE-SECRET-KEY-1QQQQQQQQQQQQQQQQQQQQQQQQQQQQQQQQQQQQQQQQQQQQQQQQQQQQ9YC6E5\n")
+	os.WriteFile(victim, orig, 0o644)
+	os.Symlink("victim.key", filepath.Join(dir, "link.key"))
+	os.Symlink(victim, filepath.Join(dir, "abslink.key"))
+	os.Symlink("link.key", filepath.Join(dir, "link2.key"))
+	os.Link(victim, filepath.Join(dir, "hard.key"))
+	os.MkdirAll(filepath.Join(dir, "sub"), 0o755)
+	for _, sp := range []string{"link.key", "abslink.key", "link2.key", "hard.key", "./victim.key", "sub/../victim.key", victim, dir + "//victim.key"} {
+		p = vk.RunProc(20*time.Second, dir, nil, []byte{}, kg, "-o", sp)
+		now, _ := os.ReadFile(victim)
+		st, _ := os.Stat(victim)
+		run.Eval(1)
+		if p.Exit == 0 || !bytes.Equal(now, orig) || (st != nil && st.Mode().Perm() != 0o644) {
+			run.Violation("C15:keygen-overwrites:"+short(sp), fmt.Sprintf("age-keygen -o %s (an existing file reached through a link or another spelling): exit %d, file changed: %v", sp, p.Exit, !bytes.Equal(now, orig)), map[string]interface{}{"check": "C15.keygen", "case": "-o " + sp})
+			os.WriteFile(victim, orig, 0o644)
+		}
+		run.Distinct("keygen:-o existing via " + short(sp))
+	}
+	// a dangling symlink is not an existing file; whatever happens, a key file that appears must be owner-only
+	os.Symlink("nowhere.key", filepath.Join(dir, "dangling.key"))
+	p = vk.RunProc(20*time.Second, dir, nil, []byte{}, kg, "-o", "dangling.key")
+	if st, err := os.Stat(filepath.Join(dir, "nowhere.key")); err == nil && st.Mode().Perm()&0o077 != 0 {
+		run.Violation("C15:keygen-mode:dangling", fmt.Sprintf("key file created through a dangling symlink with mode %o", st.Mode().Perm()), nil)
+	}
+	run.Eval(1)
 	// -o with a size limit at every offset
 	T := len(b)
 	for k := 0; k <= T; k += 7 {
@@ -693,4 +776,11 @@ func keygen(run *vk.Run, kg, root string) {
 	check("-y extra argument", p.Exit, false, "")
 	p = vk.RunProc(20*time.Second, dir, nil, []byte{}, kg, "-o", filepath.Join(dir, "nodir", "k"))
 	check("-o missing directory", p.Exit, false, "")
+}
+
+func short(s string) string {
+	if len(s) > 12 {
+		return s[len(s)-12:]
+	}
+	return s
 }
